@@ -143,9 +143,9 @@ Proof.
   - destruct (dec_q q0) eqn:E; [now apply get_slice_exc in H|]. inversion H; subst. now apply dec_q_exc in E.
   - now apply get_slice_exc in H.
 Qed.
-Lemma add_referable_exc : forall m ch x d e, guard H_post_elem_add (add_referable m ch x) d = Exc e -> good e = true.
+Lemma add_referable_exc : forall m lt ch x d e, guard H_post_elem_add (add_referable m lt ch x) d = Exc e -> good e = true.
 Proof.
-  intros m ch x d e H. unfold add_referable in H.
+  intros m lt ch x d e H. unfold add_referable in H.
   repeat (bm; try discriminate); vm_compute in H; done H.
 Qed.
 Lemma remove_referable_exc : forall ch k d e, guard H_ns_op (remove_referable ch k) d = Exc e -> good e = true.
@@ -216,7 +216,7 @@ Ltac leaf :=
   | E : send_file _ _ _ _ = Exc _ |- _ => now apply send_file_exc in E
   | E : guard _ (rekey_update _ _ _ _) _ = Exc _ |- _ => now apply rekey_update_exc in E
   | E : guard _ (store_add _ _) _ = Exc _ |- _ => apply store_add_exc in E; [exact E | tauto]
-  | E : guard _ (add_referable _ _ _) _ = Exc _ |- _ => now apply add_referable_exc in E
+  | E : guard _ (add_referable _ _ _ _) _ = Exc _ |- _ => now apply add_referable_exc in E
   | E : guard H_ns_op (remove_referable _ _) _ = Exc _ |- _ => now apply remove_referable_exc in E
   | E : guard H_ns_op _ _ = Exc _ |- _ => now apply ns_op_exc in E
   | E : guard _ (Exc _) _ = Exc _ |- _ => vm_compute in E; done E
